@@ -627,7 +627,7 @@ impl Gen {
                 };
                 stmt
             }
-            4 => Stmt::DropTable { name: "nosuch".into() },
+            4 => Stmt::DropTable { name: "nosuch".into(), cascade: false },
             5 if !ts.is_empty() => {
                 let t = &self.model.tables[*self.rng.pick(&ts)];
                 Stmt::CreateTable { name: t.name.clone(), cols: vec![ColDef { name: "id".into(), ty: Ty::BigInt, not_null: false, default: None }], pk: None, uniques: vec![] }
@@ -1104,7 +1104,8 @@ impl Gen {
                     let ti = *self.rng.pick(&ts);
                     let name = self.model.tables[ti].name.clone();
                     self.emit(Event::Flush);
-                    self.emit(Event::Auto(Stmt::DropTable { name }));
+                    let cascade = self.events.len() % 2 == 0;
+                    self.emit(Event::Auto(Stmt::DropTable { name, cascade }));
                     continue;
                 }
                 let rel_ok = !self.p.has("more_than_3_relations") || self.relations_made < 3;
@@ -1226,7 +1227,8 @@ impl Gen {
                         let ti = *self.rng.pick(&ts);
                         let name = self.model.tables[ti].name.clone();
                         self.emit(Event::Flush);
-                        self.emit(Event::Auto(Stmt::DropTable { name }));
+                        let cascade = self.events.len() % 2 == 0;
+                        self.emit(Event::Auto(Stmt::DropTable { name, cascade }));
                     }
                 } else if ts.len() > 1 && self.rng.chance(50) && !self.p.has("drop_table_before_crash") {
                     let ti = *self.rng.pick(&ts);
@@ -1238,10 +1240,12 @@ impl Gen {
                     let being_dropped = self.model.tables[ti].droppers.iter().any(|d| self.model.txs[*d].status == TxStatus::Active);
                     if !busy && !(in_sess.is_some() && self.p.has("drop_table_inside_session")) && !(being_dropped && self.p.has("drop_of_table_with_pending_drop")) {
                         match in_sess {
-                            Some(k) => self.emit(Event::Exec(k, Stmt::DropTable { name })),
+                            Some(k) => self.emit(Event::Exec(k, Stmt::DropTable { name, cascade: false })),
                             None => {
                                 if self.sess.is_empty() {
-                                    self.emit(Event::Auto(Stmt::DropTable { name }))
+                                    // every other autocommit drop is a DROP TABLE ... CASCADE (decided without a PRNG draw)
+                                    let cascade = self.events.len() % 2 == 0;
+                                    self.emit(Event::Auto(Stmt::DropTable { name, cascade }))
                                 }
                             }
                         }
@@ -1300,6 +1304,21 @@ impl Gen {
         let open: Vec<u32> = self.sess.keys().copied().collect();
         for k in open {
             self.end_session(k);
+        }
+        // crash profiles, every other history (decided without a PRNG draw): a table with a named unique index is
+        // created, filled and dropped with CASCADE, all committed, so that some crash points replay the drop from the
+        // log; crashsim then probes that the index name is free again on the recovered database
+        if matches!(self.p.name.as_str(), "C01" | "C02" | "C08")
+            && self.events.len() % 2 == 0
+            && self.relations_made < 2
+            && self.model.tables.iter().all(|t| t.name != "zc")
+        {
+            let col = |n: &str, ty: Ty| ColDef { name: n.into(), ty, not_null: false, default: None };
+            self.relations_made += 2;
+            self.emit(Event::Auto(Stmt::CreateTable { name: "zc".into(), cols: vec![col("id", Ty::BigInt), col("v", Ty::Int)], pk: None, uniques: vec![] }));
+            self.emit(Event::Auto(Stmt::CreateIndex { name: "zc_ix".into(), table: "zc".into(), cols: vec!["id".into()] }));
+            self.emit(Event::Auto(Stmt::Insert { table: "zc".into(), rows: vec![vec![Val::I(1), Val::I(1)]] }));
+            self.emit(Event::Auto(Stmt::DropTable { name: "zc".into(), cascade: true }));
         }
         self.emit(Event::Check);
         if self.p.txn_burst > 0 {
